@@ -111,6 +111,30 @@ def step (guard : Bool) (s : State) : Ev → State
 
 def run (guard : Bool) (s : State) (tr : List Ev) : State := tr.foldl (step guard) s
 
+/-! ### the geth forwarding layer (`l1/geth_l1_state_provider.go`) -/
+
+/-- The Starknet field modulus (`felt.SetBigInt` reduces modulo it). -/
+def feltP : Nat := 2 ^ 251 + 17 * 2 ^ 192 + 1
+
+/-- A `LogStateUpdate` log as the L1 node delivers it (`contract.StarknetLogStateUpdate`):
+the three uint256 words of the event plus `Raw.BlockNumber` and `Raw.Removed`. -/
+structure RawLog where
+  globalRoot : Nat
+  blockNumber : Nat
+  blockHash : Nat
+  l1 : Nat
+  removed : Bool
+  deriving DecidableEq, Repr, Inhabited
+
+/-- `stateUpdateFromGethContract`: `BlockNumber.Uint64()`, `felt.SetBigInt` of hash and root,
+`Raw.BlockNumber`, `Raw.Removed`. -/
+def decodeLog (r : RawLog) : SU :=
+  ⟨r.blockNumber % 2 ^ 64, r.blockHash % feltP, r.globalRoot % feltP, r.l1, r.removed⟩
+
+/-- `forwardStateUpdates` / `FilterStateUpdate`: every log the node delivers is decoded and passed
+on, in order — the layer keeps no state and filters nothing (removal notices included). -/
+def forwardStream (rs : List RawLog) : List SU := rs.map decodeLog
+
 /-! ### start-up catch-up -/
 
 /-- `FilterStateUpdate(from, to)` of a provider whose log history is `hist` (chain order). -/
